@@ -32,6 +32,7 @@ type Ctx struct {
 }
 
 func NewCtx(p *Program, prop string) *Ctx {
+	curProgram = p
 	return &Ctx{P: p, Prop: prop, Analysed: map[string]bool{}}
 }
 
